@@ -113,3 +113,33 @@ func VerifC31FilterHas(h any, id string) bool {
 	}
 	return f.Lookup([]byte(id))
 }
+
+// VerifC31Probe learns, from a throw-away filter of the same capacity, which bucket an ID goes to first
+// (i1) and which bucket it overflows to (i2, equal to i1 when the ID has no second bucket). Used by the
+// harness to predict - without running it - whether an insert would have to displace stored
+// fingerprints (the library then picks victims with runtime.fastrand).
+func VerifC31Probe(capacity uint, id string) (i1, i2 int) {
+	f := cuckoo.NewFilter(capacity)
+	b := []byte(id)
+	const slots, width = 4, 2
+	bucketOf := func(except int) int {
+		enc := f.Encode()
+		for i := 0; i+1 < len(enc); i += width {
+			if (enc[i] != 0 || enc[i+1] != 0) && i/(slots*width) != except {
+				return i / (slots * width)
+			}
+		}
+		return -1
+	}
+	f.Insert(b)
+	i1 = bucketOf(-1)
+	for k := 1; k < slots; k++ {
+		f.Insert(b)
+	}
+	f.Insert(b) // fifth copy: overflows into the alternate bucket if there is one
+	i2 = bucketOf(i1)
+	if i2 < 0 {
+		i2 = i1
+	}
+	return i1, i2
+}
